@@ -46,12 +46,38 @@ def run(chk: Check, proj: Project) -> None:
     chk.borrow("S7", "fills and deferred children are rendered with the loop state and variable layering of THEIR position: snapshot copy discipline and the position of the captured-variable layer (shared with C03-S6/S9)",
                lambda sub: (C03.s6(sub, proj, w), C03.s9_forloop_copies(sub, proj, w), C03.s12_layer_frame(sub, proj, w)))
     s9(chk, proj, w)
+    s11(chk, proj, w)
     from . import generic
 
     chk.rule("S10", "every function on the render routes that hands its parameters on to the next one (Component.render -> _render -> _render_impl -> _render_with_id, render_to_response -> render, ComponentNode.render -> _render, resolve_fills -> _extract_fill_content ...) hands on EVERY parameter the two signatures share, positional ones in the position of the same name")
     generic.forwarding(chk, "S10", proj, w.cg, ["component", "components.dynamic", "slots", "component_registry", "node", "provide"], floor=6)
     chk.borrow("S8", "slot resolution, the isolation gate and the fill-context choice read the SAME mode (the component's registry settings) (shared with C03-S10)",
                lambda sub: C03.s10_mode_source(sub, proj, w), only=lambda o: "mode-from-registry" in o.construct)
+
+
+def s11(chk: Check, proj: Project, w) -> None:
+    chk.rule("S11", "fills are discovered afresh in every render of a tag (conditional fills can differ between renders of the same node: nothing about the outcome is remembered on the shared NodeList); when the page is stitched together a text piece is kept unless it is EMPTY (whitespace is content)")
+    m, f = proj.func("slots", "resolve_fills")
+    chk.analysed(fkey(m, f))
+    ex = [c for c in calls(f, "_extract_fill_content")]
+    nl = params(f)[1] if len(params(f)) > 1 else "nodelist"
+    stores = [x for x in ast.walk(f) if (isinstance(x, ast.Attribute) and isinstance(x.ctx, ast.Store) and norm(x.value) == nl) or (isinstance(x, ast.Call) and norm(x.func) == "setattr" and x.args and norm(x.args[0]) == nl)]
+    ok = len(ex) == 1 and isinstance(enclosing_stmt(ex[0]), ast.Assign) and enclosing_stmt(ex[0]) in f.body and not stores
+    chk.ob("S11", "slots:resolve_fills:discovery-every-render", m.loc(stores[0]) if stores else (m.loc(ex[0]) if ex else m.loc(f)), ok,
+           "_extract_fill_content(...) runs unconditionally and nothing is stored on the NodeList" if ok else
+           f"`{short(enclosing_stmt(stores[0])) if stores else 'the discovery call is conditional'}`: the outcome of one render's fill discovery is remembered on the tag's NodeList, which every later render of the same node (a loop, a re-used Template) shares - after one render without an active fill the slot shows its default for good and is_filled stays false")
+    pm, pf = proj.func("perfutil.component", "component_post_render")
+    tree_fn = None
+    for c in calls(pf):
+        tg = w.cg.resolve_callee(pm, c, c.func)
+        if tg is not None and isinstance(tg[1], ast.FunctionDef) and any(isinstance(x, ast.While) for x in ast.walk(tg[1])):
+            tree_fn = tg
+    lm, lf = tree_fn if tree_fn is not None else (pm, pf)
+    chk.analysed(fkey(lm, lf))
+    stripped = [iff for iff in ast.walk(lf) if isinstance(iff, ast.If) and any(isinstance(c, ast.Call) and isinstance(c.func, ast.Attribute) and c.func.attr in ("strip", "isspace") for c in ast.walk(iff.test))]
+    chk.ob("S11", "perfutil.component:queue-loop:whitespace-is-content", lm.loc(stripped[0]) if stripped else lm.loc(lf), not stripped,
+           "no piece of the output is dropped because it is only whitespace" if not stripped else
+           f"`if {short(stripped[0].test)}` drops whitespace-only text between nested components: `{{% component \"a\" / %}} {{% component \"b\" / %}}` renders 'AB' instead of 'A B' (the page is not the in-order composition of its pieces)")
 
 
 def s9(chk: Check, proj: Project, w) -> None:
